@@ -32,96 +32,282 @@ READERS = {"TTML": ("imsc_reader.to_model", None), "SCC": ("scc_reader.to_model"
            "SRT": ("srt_reader.to_model", None), "VTT": ("vtt_reader.to_model", None)}
 WRITERS = {"TTML": ("imsc_writer.from_model", "IMSCWriterConfiguration"), "SRT": ("srt_writer.from_model", "SRTWriterConfiguration"), "VTT": ("vtt_writer.from_model", "VTTWriterConfiguration")}
 NONDET_CALLS = {"id", "hash", "random.random", "random.randint", "random.choice", "time.time", "time.time_ns", "uuid.uuid4", "uuid.uuid1", "os.getpid", "datetime.now", "datetime.datetime.now"}
+STATE_OK = {
+  "progress.display_progress_bar": "console progress handler switch (logging only; never reaches the output file)",
+}
 GLOBAL_OK = {
   "DocumentFilter._all_filters": "filter registry filled once per subclass at import time (__init_subclass__)",
 }
 
 
-def chain(f, var):
-  """[(member name or None for else, body)] of the if/elif chain testing `var is FileTypes.X`."""
-  for st in f.node.body:
-    if isinstance(st, ast.If) and unparse(st.test).startswith(f"{var} is FileTypes."):
-      out = []
-      cur = st
-      while True:
-        out.append((unparse(cur.test).split(".")[-1], cur.body))
-        if len(cur.orelse) == 1 and isinstance(cur.orelse[0], ast.If) and unparse(cur.orelse[0].test).startswith(f"{var} is FileTypes."):
-          cur = cur.orelse[0]
-        else:
-          out.append((None, cur.orelse))
-          break
-      return st, out
-  raise AnalysisError(f"convert: dispatch chain on `{var}` not found")
+FORMAT_PACKAGE = {"ttml": "imsc"}  # FileTypes value -> package name when they differ
+
+
+class Convert:
+  """Roles of the locals of tt.convert, discovered from the code (no names are assumed)."""
+
+  def __init__(self, ctx):
+    ix = ctx.ix
+    self.ix = ix
+    self.f = f = ix.func(f"{TT}:convert")
+    self.args = f.params[0]
+    self.body = f.node.body
+    a = self.args
+    self.cfg_inline = self.cfg_file = None
+    self.type_vars = {}
+    self.path_vars = {"input": {f"{a}.input"}, "output": {f"{a}.output"}}
+    ext_vars = {}
+    for st in own_nodes(f.node):
+      if isinstance(st, ast.Assign) and len(st.targets) == 1:
+        t, v = st.targets[0], st.value
+        vt = unparse(v)
+        if isinstance(t, ast.Name):
+          if vt == f"{a}.input":
+            self.path_vars["input"].add(t.id)
+          if vt == f"{a}.output":
+            self.path_vars["output"].add(t.id)
+          if isinstance(v, ast.Call) and unparse(v.func) == "json.loads" and v.args and unparse(v.args[0]) == f"{a}.config":
+            self.cfg_inline = (t.id, st)
+          if isinstance(v, ast.Call) and unparse(v.func) == "json.load":
+            self.cfg_file = (t.id, st)
+        if isinstance(t, ast.Tuple) and isinstance(v, ast.Call) and unparse(v.func) == "os.path.splitext" and len(t.elts) == 2 and isinstance(t.elts[1], ast.Name):
+          ext_vars[t.elts[1].id] = unparse(v.args[0])
+    for st in own_nodes(f.node):
+      if isinstance(st, ast.Assign) and len(st.targets) == 1 and isinstance(st.targets[0], ast.Name) and isinstance(st.value, ast.Call):
+        r = ix.resolve(f.module, st.value.func, func=f)
+        if getattr(r, "qualname", None) == f"{TT}:FileTypes.get_file_type" and len(st.value.args) == 2:
+          t0, t1 = unparse(st.value.args[0]), unparse(st.value.args[1])
+          src = ext_vars.get(t1)
+          role = "reader" if t0 == f"{a}.itype" else "writer" if t0 == f"{a}.otype" else None
+          if role is not None:
+            self.type_vars[role] = st.targets[0].id
+          if role is None or src not in self.path_vars["input" if role == "reader" else "output"]:
+            self.type_vars.setdefault("bad", []).append(short(st, 80))
+
+  def top(self, node):
+    for i, st in enumerate(self.body):
+      if any(x is node for x in ast.walk(st)):
+        return i
+    return None
+
+  def chain(self, what):
+    var = self.type_vars.get(what)
+    if var is None:
+      raise AnalysisError(f"convert: the {what} type variable (FileTypes.get_file_type(args.{'itype' if what == 'reader' else 'otype'}, <extension>)) was not found")
+
+    def member(test):
+      if isinstance(test, ast.Compare) and len(test.ops) == 1 and isinstance(test.ops[0], (ast.Is, ast.Eq)) and unparse(test.left) == var:
+        r = unparse(test.comparators[0])
+        if r.startswith("FileTypes."):
+          return r.split(".")[-1]
+      return None
+    for st in self.body:
+      if isinstance(st, ast.If) and member(st.test):
+        out, cur = [], st
+        while True:
+          out.append((member(cur.test), cur.body))
+          if len(cur.orelse) == 1 and isinstance(cur.orelse[0], ast.If) and member(cur.orelse[0].test):
+            cur = cur.orelse[0]
+          else:
+            out.append((None, cur.orelse))
+            break
+        return st, out
+    raise AnalysisError(f"convert: dispatch chain on `{var}` not found")
+
+
+def config_classes_of(ix, modname):
+  """ModuleConfiguration subclasses the module refers to (by import)."""
+  base = ix.cls("ttconv.config:ModuleConfiguration")
+  m = ix.modules.get(modname)
+  out = set()
+  if m is None:
+    return out
+  for node in ast.walk(m.tree):
+    if isinstance(node, (ast.Name, ast.Attribute)):
+      r = ix.resolve(m, node)
+      if isinstance(r, ClassInfo) and r is not base and ix.is_subclass(r, base):
+        out.add(r.qualname)
+  return out
+
+
+def branch_facts(cv: Convert, body, cfgvar):
+  """(resolved reader/writer calls, {local: config class qualname parsed from cfgvar})"""
+  ix, f = cv.ix, cv.f
+  calls, parsed = [], {}
+  for st in body:
+    for n in ast.walk(st):
+      if isinstance(n, ast.Call):
+        r = ix.resolve(f.module, n.func, func=f)
+        if isinstance(r, FuncInfo):
+          calls.append((r, n))
+      if isinstance(n, ast.Assign) and len(n.targets) == 1 and isinstance(n.targets[0], ast.Name) and isinstance(n.value, ast.Call):
+        r = ix.resolve(f.module, n.value.func, func=f)
+        if getattr(r, "qualname", None) == f"{TT}:read_config_from_json" and len(n.value.args) == 2:
+          c = ix.resolve(f.module, n.value.args[0], func=f)
+          parsed[n.targets[0].id] = (c.qualname if isinstance(c, ClassInfo) else unparse(n.value.args[0]), unparse(n.value.args[1]))
+  return calls, parsed
 
 
 def check_types(ctx):
   ix = ctx.ix
   g = ix.func(f"{TT}:FileTypes.get_file_type")
   ctx.unit(g.module)
-  rets = [r for r in own_nodes(g.node) if isinstance(r, ast.Return) and r.value is not None and "FileTypes(" in unparse(r.value)]
+  ft = ix.cls(f"{TT}:FileTypes")
+  tparam, eparam = g.params[0], g.params[1]
+  rets = [r for r in own_nodes(g.node) if isinstance(r, ast.Return) and isinstance(r.value, ast.Call) and ix.resolve(g.module, r.value.func, cls=ft, func=g) is ft]
   ctx.floor("TYPE", "FileTypes(...) returns in get_file_type", len(rets), 2)
   for r in rets:
     a = r.value.args[0]
-    ctx.check(isinstance(a, ast.Call) and isinstance(a.func, ast.Attribute) and a.func.attr == "lower", "TYPE", f"{g.qualname}|{short(r.value, 50)} is case-insensitive", ctx.where(g.module, r),
+    ok = isinstance(a, ast.Call) and isinstance(a.func, ast.Attribute) and a.func.attr in ("lower", "casefold") and not a.args
+    ctx.check(ok, "TYPE", f"{g.qualname}|{short(r.value, 50)} is case-insensitive", ctx.where(g.module, r),
               "argument passes through .lower()", f"`{short(r.value, 50)}` looks the type up without lower-casing it: --itype TTML / a .SRT extension is rejected")
-  t = unparse(g.node)
-  ctx.check("if file_type is None:" in t and "file_extension[0] == '.'" in t, "TYPE", f"{g.qualname}|explicit type wins, else the extension without its dot", ctx.where(g.module, g.node),
-            "file_type is None -> extension", "the precedence of --itype/--otype over the file extension (or the removal of the leading dot) changed")
-  ft = ix.cls(f"{TT}:FileTypes")
+  # explicit type wins: the return that uses the extension is dominated by `<type> is None`, the one using the type is not
+  cfg = CFG(g.node)
+  dom = cfg.dominators()
+  for r in rets:
+    uses_ext = eparam in {n.id for n in ast.walk(r.value) if isinstance(n, ast.Name)}
+    uses_type = tparam in {n.id for n in ast.walk(r.value) if isinstance(n, ast.Name)}
+    nid = cfg.node_of(r)
+    guarded = any(cfg.nodes[d].kind == "test" and isinstance(cfg.nodes[d].ast, ast.If) and unparse(cfg.nodes[d].ast.test) in (f"{tparam} is None", f"{tparam} == None") and
+                  any(x is r for s in cfg.nodes[d].ast.body for x in ast.walk(s)) for d in dom.get(nid, ()))
+    if uses_ext and not uses_type:
+      ctx.check(guarded, "TYPE", f"{g.qualname}|the extension is used only when no explicit type is given", ctx.where(g.module, r), f"dominated by `{tparam} is None`",
+                "the file extension is consulted even when --itype/--otype is given: the explicit type no longer wins")
+      strip = [s for s in own_nodes(g.node) if isinstance(s, ast.Assign) and unparse(s.targets[0]) == eparam and isinstance(s.value, ast.Subscript) and
+               unparse(s.value.slice).replace(" ", "") in ("1:", f"1:len({eparam})")]
+      dot = [s for s in own_nodes(g.node) if isinstance(s, ast.Compare) and unparse(s).replace('"', "'") == f"{eparam}[0] == '.'"]
+      ctx.check(len(strip) == 1 and len(dot) == 1, "TYPE", f"{g.qualname}|exactly the leading dot of the extension is removed", ctx.where(g.module, r), f"`{eparam}[0] == '.'` then `{eparam}[1:]`",
+                "the leading `.` of the file extension is not removed exactly (os.path.splitext returns `.srt`)")
+    elif uses_type:
+      ctx.check(not guarded, "TYPE", f"{g.qualname}|an explicit type is used directly", ctx.where(g.module, r), "not under `is None`", "the explicit type is only used when it is None")
   ce = ConstEval(ix)
   members = {n: ce.try_ev(ft.module, v, ft) for n, v in ix.enum_members(ft)}
-  ctx.check(all(isinstance(v, str) and v == v.lower() for v in members.values()), "TYPE", f"{ft.qualname}|member values are lower case", ctx.where(ft.module, ft.node), f"{members}",
-            f"FileTypes values {members} are not all lower case although the lookup lower-cases its argument")
-  conv = ix.func(f"{TT}:convert")
-  for var, table, what in (("reader_type", READERS, "reader"), ("writer_type", WRITERS, "writer")):
-    st, ch = chain(conv, var)
-    handled = {k: body for k, body in ch if k is not None}
+  ctx.check(all(isinstance(v, str) and v == v.lower() for v in members.values()) and len(set(members.values())) == len(members), "TYPE", f"{ft.qualname}|member values are distinct lower-case strings",
+            ctx.where(ft.module, ft.node), f"{members}", f"FileTypes values {members} are not distinct lower-case strings although the lookup lower-cases its argument")
+  cv = Convert(ctx)
+  conv = cv.f
+  ctx.check("bad" not in cv.type_vars and set(cv.type_vars) >= {"reader", "writer"}, "TYPE", f"{conv.qualname}|reader type from (itype, input extension), writer type from (otype, output extension)", ctx.where(conv.module, conv.node),
+            f"{cv.type_vars}", f"the type lookups do not pair --itype with the input path's extension and --otype with the output path's: {cv.type_vars.get('bad')}")
+  cfgvar = cv.cfg_inline[0] if cv.cfg_inline else None
+  for what, fname, sub in (("reader", "to_model", "reader"), ("writer", "from_model", "writer")):
+    st, ch = cv.chain(what)
+    handled = {}
+    for k, body in ch:
+      if k is not None:
+        if k in handled:
+          ctx.bad("DSP-types", f"{conv.qualname}|{what} branch for {k} appears twice", ctx.where(conv.module, body[0]), f"two branches test FileTypes.{k}; the second is dead")
+        handled.setdefault(k, body)
     else_body = [body for k, body in ch if k is None][0]
-    exits = any(isinstance(c, ast.Call) and unparse(c.func) == "sys.exit" for s in else_body for c in ast.walk(s))
-    ctx.check(exits, "DSP-types", f"{conv.qualname}|unsupported {what} type ends with sys.exit", ctx.where(conv.module, st), "else: LOGGER.error + sys.exit",
-              f"an unsupported {what} type no longer ends the conversion with sys.exit(...)")
-    for mname in members:
+    last = else_body[-1] if else_body else None
+    exits = last is not None and isinstance(last, ast.Expr) and isinstance(last.value, ast.Call) and unparse(last.value.func) in ("sys.exit", "exit", "raise SystemExit")
+    exits = exits or (last is not None and isinstance(last, ast.Raise))
+    ctx.check(exits, "DSP-types", f"{conv.qualname}|unsupported {what} type ends the conversion with an error", ctx.where(conv.module, st), "else: ... sys.exit(<message>)",
+              f"an unsupported {what} type no longer ends the conversion with sys.exit(<message>) / an exception")
+    if exits and isinstance(last, ast.Expr):
+      ctx.check(bool(last.value.args) and not (isinstance(last.value.args[0], ast.Constant) and last.value.args[0].value in (0, None)), "DSP-types", f"{conv.qualname}|unsupported {what} type exits with a failure status",
+                ctx.where(conv.module, last), "sys.exit(<non-empty message>)", "sys.exit is called with a success status for an unsupported type")
+    for mname, val in members.items():
+      pkg = FORMAT_PACKAGE.get(val, val)
+      target = ix.func_opt(f"ttconv.{pkg}.{sub}:{fname}")
       key = f"{conv.qualname}|{what} for {mname}"
-      if mname in table:
-        fn, cfgcls = table[mname]
-        body = handled.get(mname)
-        if body is None:
-          ctx.bad("DSP-types", key, ctx.where(conv.module, st), f"FileTypes.{mname} has no {what} branch in convert although ttconv has a {what} for it")
-          continue
-        txt = "\n".join(unparse(s) for s in body)
-        ok = f"{fn}(" in txt
-        if cfgcls is not None:
-          ok = ok and f"read_config_from_json({cfgcls}, json_config_data)" in txt
-        ctx.check(ok, "DSP-types", key, ctx.where(conv.module, body[0]), f"calls {fn} with {cfgcls or 'no'} configuration",
-                  f"the {what} branch for {mname} does not call {fn}" + (f" with the configuration parsed as {cfgcls}" if cfgcls else ""))
+      if target is None:
+        ctx.check(mname not in handled, "DSP-types", key + "|unsupported", ctx.where(conv.module, st), f"ttconv.{pkg}.{sub} does not exist: falls into the error branch",
+                  f"convert has a {what} branch for {mname} but ttconv.{pkg}.{sub}.{fname} does not exist")
+        continue
+      body = handled.get(mname)
+      if body is None:
+        ctx.bad("DSP-types", key, ctx.where(conv.module, st), f"FileTypes.{mname} has no {what} branch in convert although ttconv.{pkg}.{sub}.{fname} exists")
+        continue
+      calls, parsed = branch_facts(cv, body, cfgvar)
+      mine = [(r, n) for r, n in calls if r is target]
+      foreign = [r.qualname for r, n in calls if r.name == fname and r is not target]
+      ctx.check(len(mine) == 1 and not foreign, "DSP-types", key, ctx.where(conv.module, body[0]), f"calls {target.qualname} once",
+                f"the {what} branch for {mname} must call {target.qualname} exactly once and no other format's {fname}; calls found: {[r.qualname for r, _ in calls if r.name == fname]}")
+      if len(mine) != 1:
+        continue
+      call = mine[0][1]
+      # configuration argument
+      params = target.params
+      cfg_idx = next((i for i, p_ in enumerate(params) if "config" in p_), None)
+      expected = config_classes_of(ix, target.module.name)
+      arg = None
+      if cfg_idx is not None:
+        if cfg_idx < len(call.args):
+          arg = call.args[cfg_idx]
+        for kw in call.keywords:
+          if kw.arg == params[cfg_idx]:
+            arg = kw.value
+      if expected:
+        ok = isinstance(arg, ast.Name) and arg.id in parsed and parsed[arg.id][0] in expected and parsed[arg.id][1] == cfgvar
+        ctx.check(ok, "DSP-types", key + "|configuration", ctx.where(conv.module, call), f"{sorted(expected)} parsed from `{cfgvar}`",
+                  f"the {what} for {mname} must receive the configuration parsed as {sorted(expected)} from `{cfgvar}`; it receives `{unparse(arg) if arg is not None else 'nothing'}`"
+                  + (f" = {parsed[arg.id]}" if isinstance(arg, ast.Name) and arg.id in parsed else ""))
       else:
-        ctx.check(mname not in handled, "DSP-types", key + "|unsupported", ctx.where(conv.module, st), f"no {what} exists for {mname}: falls into the error branch",
-                  f"convert has a {what} branch for {mname} that the table of supported {what}s does not know")
+        ok = arg is None or (isinstance(arg, ast.Constant) and arg.value is None)
+        ctx.check(ok, "DSP-types", key + "|configuration", ctx.where(conv.module, call), "this module has no configuration", f"the {what} for {mname} has no configuration class but receives `{unparse(arg) if arg is not None else ''}`")
+      # the document argument of writers is the document the readers produced
+      if what == "writer":
+        ctx.check(bool(call.args) and unparse(call.args[0]) == model_var(cv), "DSP-types", key + "|writes the document that was read and filtered", ctx.where(conv.module, call), f"first argument `{model_var(cv)}`",
+                  f"the writer for {mname} is not given the document variable `{model_var(cv)}` the readers assign")
+
+
+def model_var(cv: Convert):
+  """The local every reader branch assigns the reader's result to."""
+  if getattr(cv, "_model_var", None):
+    return cv._model_var
+  st, ch = cv.chain("reader")
+  names = set()
+  for k, body in ch:
+    if k is None:
+      continue
+    for s in body:
+      for n in ast.walk(s):
+        if isinstance(n, ast.Assign) and isinstance(n.value, ast.Call) and len(n.targets) == 1 and isinstance(n.targets[0], ast.Name):
+          r = cv.ix.resolve(cv.f.module, n.value.func, func=cv.f)
+          if isinstance(r, FuncInfo) and r.name == "to_model":
+            names.add(n.targets[0].id)
+  if len(names) != 1:
+    raise AnalysisError(f"convert: reader branches assign the document to {sorted(names)}")
+  cv._model_var = names.pop()
+  return cv._model_var
 
 
 def check_config(ctx):
   ix = ctx.ix
-  conv = ix.func(f"{TT}:convert")
+  cv = Convert(ctx)
+  conv = cv.f
   ctx.unit(conv.module)
-  body = conv.node.body
-  idx = {}
-  for i, st in enumerate(body):
-    t = unparse(st)
-    if isinstance(st, ast.If) and "args.config is not None" in unparse(st.test):
-      idx["inline"] = i
-    if isinstance(st, ast.If) and "args.config_file is not None" in unparse(st.test):
-      idx["file"] = i
-    if "read_config_from_json(GeneralConfiguration, json_config_data)" in t and "general" not in idx:
-      idx["general"] = i
-  ok = {"inline", "file", "general"} <= set(idx) and idx["inline"] < idx["file"] < idx["general"]
-  ctx.check(ok, "CONFIG", f"{conv.qualname}|configuration file overrides the inline configuration", ctx.where(conv.module, conv.node), f"statement order {idx}",
-            f"--config_file must be applied after --config (and both before any configuration is parsed); found {idx}")
-  both_assign = all(any(isinstance(x, (ast.Assign,)) and unparse(x.targets[0]) == "json_config_data" for x in ast.walk(body[idx[k]])) for k in ("inline", "file")) if ok else False
-  ctx.check(both_assign, "CONFIG", f"{conv.qualname}|both sources assign json_config_data", ctx.where(conv.module, conv.node), "same variable", "the two configuration sources no longer feed the same json_config_data")
+  ok = cv.cfg_inline is not None and cv.cfg_file is not None
+  if not ok:
+    raise AnalysisError("convert: json.loads(args.config) / json.load(<file>) assignments not found")
+  vi, si = cv.cfg_inline
+  vf, sf = cv.cfg_file
+  ti, tf = cv.top(si), cv.top(sf)
+  gi, gf = cv.body[ti], cv.body[tf]
+  a = cv.args
+  cond = (vi == vf and ti < tf and isinstance(gi, ast.If) and isinstance(gf, ast.If) and unparse(gi.test) == f"{a}.config is not None" and unparse(gf.test) == f"{a}.config_file is not None"
+          and not gi.orelse and not gf.orelse)
+  ctx.check(cond, "CONFIG", f"{conv.qualname}|the configuration file overrides the inline configuration", ctx.where(conv.module, sf), f"`{vi}` assigned from --config, then unconditionally re-assigned from --config_file when given",
+            "--config_file must be applied after --config into the same variable, each under its own `is not None` test, so that the file wins when both are given")
+  # the file that is loaded is the one named by --config_file
+  w = [n for n in ast.walk(gf) if isinstance(n, ast.With)]
+  opened = w and unparse(w[0].items[0].context_expr.args[0]) == f"{a}.config_file" if w and isinstance(w[0].items[0].context_expr, ast.Call) and w[0].items[0].context_expr.args else False
+  ctx.check(bool(opened), "CONFIG", f"{conv.qualname}|the file named by --config_file is the one loaded", ctx.where(conv.module, gf), f"open({a}.config_file)", "the configuration file that is opened is not args.config_file")
+  # every parse call uses that variable and comes after both
+  n = 0
+  for c in own_nodes(conv.node):
+    if isinstance(c, ast.Call) and getattr(ix.resolve(conv.module, c.func, func=conv), "qualname", None) == f"{TT}:read_config_from_json":
+      n += 1
+      ctx.check(len(c.args) == 2 and unparse(c.args[1]) == vi and cv.top(c) > tf, "CONFIG", f"{conv.qualname}|{short(c, 60)} reads the merged configuration", ctx.where(conv.module, c), f"second argument `{vi}`, after both sources",
+                f"`{short(c, 60)}` does not read the configuration variable `{vi}` after both sources were applied")
+  ctx.floor("CONFIG", "read_config_from_json calls in convert", n, 6)
   r = ix.func(f"{TT}:read_config_from_json")
-  t = unparse(r.node)
-  ctx.check("json_data.get(config_class.name())" in t and "config_class.parse(json_config)" in t, "CONFIG", f"{r.qualname}|section selected by the class's own name, parsed by the class", ctx.where(r.module, r.node),
-            "json_data.get(config_class.name()) -> config_class.parse(...)", "read_config_from_json no longer selects the JSON section by config_class.name() and parses it with config_class.parse")
+  cp, jp = r.params[0], r.params[1]
+  rets = [x for x in own_nodes(r.node) if isinstance(x, ast.Return) and x.value is not None and not (isinstance(x.value, ast.Constant) and x.value.value is None)]
+  sel = [x for x in own_nodes(r.node) if isinstance(x, ast.Call) and isinstance(x.func, ast.Attribute) and x.func.attr == "get" and unparse(x.func.value) == jp and x.args and unparse(x.args[0]) == f"{cp}.name()"]
+  okr = len(rets) == 1 and isinstance(rets[0].value, ast.Call) and unparse(rets[0].value.func) == f"{cp}.parse" and len(sel) == 1
+  ctx.check(okr, "CONFIG", f"{r.qualname}|section selected by the class's own name, parsed by the class", ctx.where(r.module, r.node),
+            f"{jp}.get({cp}.name()) -> {cp}.parse(...)", "read_config_from_json no longer selects the JSON section by config_class.name() and parses it with config_class.parse")
   # distinct names
   base = ix.cls("ttconv.config:ModuleConfiguration")
   names = {}
@@ -129,8 +315,8 @@ def check_config(ctx):
     nm = c.methods.get("name")
     if nm is None:
       continue
-    rets = [x for x in own_nodes(nm.node) if isinstance(x, ast.Return)]
-    v = ConstEval(ix).try_ev(c.module, rets[0].value, c) if rets else None
+    rs = [x for x in own_nodes(nm.node) if isinstance(x, ast.Return)]
+    v = ConstEval(ix).try_ev(c.module, rs[0].value, c) if rs else None
     names.setdefault(v, []).append(c.short)
   ctx.floor("CONFIG", "module configuration classes", sum(len(v) for v in names.values()), 7)
   for v, cs in sorted(names.items(), key=lambda kv: str(kv[0])):
@@ -140,56 +326,94 @@ def check_config(ctx):
 
 def check_order_and_output(ctx):
   ix = ctx.ix
-  conv = ix.func(f"{TT}:convert")
-  body = conv.node.body
+  cv = Convert(ctx)
+  conv = cv.f
+  body = cv.body
+  mv = model_var(cv)
+  a = cv.args
   pos = {}
-  for i, st in enumerate(body):
-    t = unparse(st)
-    if isinstance(st, ast.If) and unparse(st.test).startswith("reader_type is FileTypes."):
-      pos["read"] = i
-    if isinstance(st, ast.If) and "general_config.document_lang is not None" in unparse(st.test) and "model.set_lang(general_config.document_lang)" in t:
-      pos["lang"] = i
-    if isinstance(st, ast.For) and unparse(st.iter) == "args.filter":
-      pos["filters"] = i
-    if isinstance(st, ast.If) and unparse(st.test).startswith("writer_type is FileTypes."):
-      pos["write"] = i
-  ok = {"read", "lang", "filters", "write"} <= set(pos) and pos["read"] < pos["lang"] < pos["filters"] < pos["write"]
-  ctx.check(ok, "ORD", f"{conv.qualname}|read, document_lang, filters in argument order, write", ctx.where(conv.module, conv.node), f"statement order {pos}",
-            f"the pipeline order must be reader -> document_lang -> filters -> writer; found {pos}")
-  if "filters" in pos:
-    lp = body[pos["filters"]]
-    t = unparse(lp)
-    ctx.check("DocumentFilter.get_filter_by_name(filter_name)" in t and "doc_filter_class.get_config_class()" in t and "read_config_from_json(filter_config_class, json_config_data)" in t
-              and "doc_filter.process(model)" in t and "filter_config or filter_config_class()" in t, "ORD", f"{conv.qualname}|each filter is built from its own configuration and applied to the model",
-              ctx.where(conv.module, lp), "lookup by name, own config class, default config when absent, process(model)", "the filter loop no longer builds each named filter from its own configuration class and applies it to the model")
+  rst, _ = cv.chain("reader")
+  wst, wch = cv.chain("writer")
+  pos["read"] = body.index(rst)
+  pos["write"] = body.index(wst)
+  gen = None
+  for st in own_nodes(conv.node):
+    if isinstance(st, ast.Assign) and isinstance(st.value, ast.Call) and getattr(ix.resolve(conv.module, st.value.func, func=conv), "qualname", None) == f"{TT}:read_config_from_json" \
+        and getattr(ix.resolve(conv.module, st.value.args[0], func=conv), "qualname", None) == "ttconv.config:GeneralConfiguration":
+      gen = st.targets[0].id if isinstance(st.targets[0], ast.Name) else (st.target.id if hasattr(st, "target") else None)
+    if isinstance(st, ast.AnnAssign) and isinstance(st.value, ast.Call) and getattr(ix.resolve(conv.module, st.value.func, func=conv), "qualname", None) == f"{TT}:read_config_from_json" \
+        and getattr(ix.resolve(conv.module, st.value.args[0], func=conv), "qualname", None) == "ttconv.config:GeneralConfiguration":
+      gen = st.target.id
+  if gen is None:
+    raise AnalysisError("convert: the GeneralConfiguration variable was not found")
+  langs = [c for c in own_nodes(conv.node) if isinstance(c, ast.Call) and isinstance(c.func, ast.Attribute) and c.func.attr == "set_lang" and unparse(c.func.value) == mv]
+  ctx.check(len(langs) == 1 and len(langs[0].args) == 1 and unparse(langs[0].args[0]) == f"{gen}.document_lang", "ORD", f"{conv.qualname}|document_lang is applied to the document that was read", ctx.where(conv.module, conv.node),
+            f"{mv}.set_lang({gen}.document_lang)", f"convert must call {mv}.set_lang({gen}.document_lang) exactly once")
+  if len(langs) == 1:
+    pos["lang"] = cv.top(langs[0])
+    g = body[pos["lang"]]
+    tests = {unparse(x) for x in ast.walk(g.test)} if isinstance(g, ast.If) else set()
+    ctx.check(isinstance(g, ast.If) and f"{gen}.document_lang is not None" in tests and f"{gen} is not None" in tests and isinstance(g.test, ast.BoolOp) and isinstance(g.test.op, ast.And) and len(g.test.values) == 2 and not g.orelse,
+              "ORD", f"{conv.qualname}|document_lang applies exactly when it is configured", ctx.where(conv.module, g), f"`{gen} is not None and {gen}.document_lang is not None`",
+              "the document language override is not applied under exactly `general configuration present and document_lang present`")
+  loops = [st for st in body if isinstance(st, ast.For) and unparse(st.iter) == f"{a}.filter"]
+  ctx.check(len(loops) == 1, "ORD", f"{conv.qualname}|filters are applied in argument order", ctx.where(conv.module, conv.node), f"one `for ... in {a}.filter` loop", f"the filters are not applied by one loop over {a}.filter in order (reversed(), sorted(), set() change the order)")
+  if len(loops) == 1:
+    lp = loops[0]
+    pos["filters"] = body.index(lp)
+    fname = unparse(lp.target)
+    facts = {"lookup": False, "cfgcls": False, "cfg": False, "default": False, "process": False}
+    clsvar = cfgclsvar = cfgvar_ = inst = None
+    for n in own_nodes(lp):
+      if isinstance(n, ast.Assign) and len(n.targets) == 1 and isinstance(n.targets[0], ast.Name) and isinstance(n.value, ast.Call):
+        r = ix.resolve(conv.module, n.value.func, func=conv)
+        q = getattr(r, "qualname", None)
+        if q == "ttconv.filters.document_filter:DocumentFilter.get_filter_by_name" and unparse(n.value.args[0]) == fname:
+          clsvar = n.targets[0].id
+          facts["lookup"] = True
+        elif clsvar and unparse(n.value.func) == f"{clsvar}.get_config_class":
+          cfgclsvar = n.targets[0].id
+          facts["cfgcls"] = True
+        elif q == f"{TT}:read_config_from_json" and cfgclsvar and unparse(n.value.args[0]) == cfgclsvar:
+          cfgvar_ = n.targets[0].id
+          facts["cfg"] = True
+      tgt = n.targets[0] if isinstance(n, ast.Assign) and len(n.targets) == 1 else (n.target if isinstance(n, ast.AnnAssign) else None)
+      val = getattr(n, "value", None) if tgt is not None else None
+      if isinstance(tgt, ast.Name) and isinstance(val, ast.Call) and clsvar and unparse(val.func) == clsvar and len(val.args) == 1:
+        inst = tgt.id
+        facts["default"] = unparse(val.args[0]) in (f"{cfgvar_} or {cfgclsvar}()", f"{cfgvar_} if {cfgvar_} is not None else {cfgclsvar}()")
+      if isinstance(n, ast.Call) and inst and unparse(n.func) == f"{inst}.process" and len(n.args) == 1 and unparse(n.args[0]) == mv:
+        facts["process"] = True
+    ctx.check(all(facts.values()), "ORD", f"{conv.qualname}|each filter is looked up by name, built from its own configuration (default when absent) and applied to the document", ctx.where(conv.module, lp), f"{facts}",
+              f"the filter loop lost a step: {sorted(k for k, v in facts.items() if not v)}")
+  ok = {"read", "lang", "filters", "write"} <= set(pos) and pos["read"] < pos["lang"] < pos["filters"] < pos["write"] and pos["write"] == len(body) - 1
+  ctx.check(ok, "ORD", f"{conv.qualname}|read, document_lang, filters, write (last)", ctx.where(conv.module, conv.node), f"statement order {pos}",
+            f"the pipeline order must be reader -> document_lang -> filters -> writer (last); found {pos}")
   # output opening
   cfg = CFG(conv.node)
   dom = cfg.dominators()
+  outs = cv.path_vars["output"]
   opens = []
   for c in own_nodes(conv.node):
-    if isinstance(c, ast.Call) and ((unparse(c.func) == "open" and c.args and unparse(c.args[0]) == "outputfile") or (isinstance(c.func, ast.Attribute) and c.func.attr == "write" and c.args and unparse(c.args[0]) == "outputfile")):
-      opens.append(c)
+    if isinstance(c, ast.Call) and c.args and unparse(c.args[0]) in outs:
+      fn = unparse(c.func)
+      mode = unparse(c.args[1]) if len(c.args) > 1 else next((unparse(k.value) for k in c.keywords if k.arg == "mode"), "'r'")
+      if (fn == "open" and any(ch_ in mode for ch_ in "wax+")) or (isinstance(c.func, ast.Attribute) and c.func.attr in ("write", "write_text", "write_bytes", "touch")) or fn in ("Path", "pathlib.Path"):
+        opens.append(c)
   ctx.floor("OUT", "statements that open the output path", len(opens), 3)
   for c in opens:
     nid = cfg.stmt_node_containing(c)
-    # a writer call in the same branch dominates it
     ok = False
     for d in dom.get(nid, ()):
-      a = cfg.nodes[d].ast
-      if a is not None and cfg.nodes[d].kind == "stmt" and "_writer.from_model(" in unparse(a):
-        ok = True
-    ctx.check(ok, "OUT", f"{conv.qualname}|{short(c, 50)} after the writer produced the document", ctx.where(conv.module, c), "dominated by <format>_writer.from_model(...)",
-              f"`{short(c, 50)}` opens the output file before the writer has produced the document: a failing conversion leaves an empty or partial output file")
-    ctx.check(pos.get("write", -1) == max(pos.values()) and isdrules_top(conv, c) == pos.get("write"), "OUT", f"{conv.qualname}|{short(c, 50)} only in the final writer dispatch", ctx.where(conv.module, c),
-              "inside the writer dispatch, the last step", "the output path is opened outside the final writer dispatch")
-
-
-def isdrules_top(f, node):
-  """Index of the top-level statement of f that contains node."""
-  for i, st in enumerate(f.node.body):
-    if any(x is node for x in ast.walk(st)):
-      return i
-  return None
+      an = cfg.nodes[d].ast
+      if an is not None and cfg.nodes[d].kind == "stmt":
+        for n in ast.walk(an):
+          if isinstance(n, ast.Call):
+            r = ix.resolve(conv.module, n.func, func=conv)
+            if isinstance(r, FuncInfo) and r.name == "from_model":
+              ok = True
+    ctx.check(ok and cv.top(c) == pos["write"], "OUT", f"{conv.qualname}|{short(c, 50)} after the writer produced the document", ctx.where(conv.module, c), "dominated by <format>.writer.from_model(...) inside the final dispatch",
+              f"`{short(c, 50)}` opens the output file before the writer has produced the document (or outside the final dispatch): a failing or unsupported conversion leaves an empty or partial output file")
 
 
 def check_decoders(ctx):
@@ -265,11 +489,7 @@ def check_determinism(ctx):
   # module / class level containers
   funcs = [f for f in ix.funcs.values() if f.module.name in reachable_modules(ix)]
   shape.check_no_global_mutation(ctx, funcs, rule="STATE-alias", allowed=GLOBAL_OK)
-  # assignments to module-level names from functions (global statements) and to attributes of module objects
-  conv = ix.func(f"{TT}:convert")
-  for st in own_nodes(conv.node):
-    if isinstance(st, ast.Assign) and isinstance(st.targets[0], ast.Attribute) and isinstance(st.targets[0].value, ast.Name) and st.targets[0].value.id == "progress":
-      ctx.ok("STATE-alias", f"{conv.qualname}|{unparse(st.targets[0])}|allowed", ctx.where(conv.module, st), "tabled: console progress handler setting (logging only, does not reach the output file)")
+  shape.check_no_process_state(ctx, funcs, rule="STATE-global", allowed=STATE_OK)
 
 
 def run(ctx):
